@@ -9,6 +9,7 @@
                           <itree> <irecvs> <imutes> <itis>              the accepted *config.Config (or - - - -)
                           <stringhex> <canaries>                        Config.String(), name:hexvalue,…
                           <tree2> <x1> <x2>                             after Load(String()): tree, rules+intervals hash before/after
+                          <built>                                       same | changed | panic | -: Config.String() after dispatch.NewRoute(cfg.Route) vs before
   reload <v|i|s> <seed> -> <err 0|1> <calls> <ptr same|new|nil> <applied> <file>
   fuzz <seed> <n> -> <npanic> <ntimeout> <sites>
   fields -> <nfields> <missing> <unpinned> <unmasked>
@@ -96,7 +97,7 @@ def onlyEmptyGroupByLost (a b : String) : Bool :=
 
 def cfgStep (σ : St) (profile : String) (obs : List String) : St × List Msg :=
   match obs with
-  | [flags, rtree, rrecvs, rmutes, rtis, cls, itree, irecvs, imutes, itis, strhex, canaries, tree2, x1, x2] =>
+  | [flags, rtree, rrecvs, rmutes, rtis, cls, itree, irecvs, imutes, itis, strhex, canaries, tree2, x1, x2, built] =>
     let raw := parseCfg flags rtree rrecvs rmutes rtis
     let m := match validate raw with
       | .ok _ => "ok"
@@ -136,14 +137,25 @@ def cfgStep (σ : St) (profile : String) (obs : List String) : St × List Msg :=
         ++ (if x1 = x2 then [] else [.propfail "print_load_stable" "rules-or-intervals" "inhibit rules / time intervals change across print -> load"])
         -- the model of the code as it is predicts exactly the omitempty loss
         ++ expectEq "stable.tree" (showTree ((parseTree itree).map printLoad)) (showTree (parseTree tree2))
+    -- the configuration is an INPUT of the routing-tree build (dispatch.NewRoute, run by every apply): what Config.String()
+    -- prints — the text the status API serves and print -> load is stated about — is the same before and after it
+    let pure : List Msg :=
+      if built = "changed" then [.propfail "print_load_stable_partial" "config-mutated-by-tree-build"
+          "Config.String() of the loaded configuration differs before and after dispatch.NewRoute(cfg.Route): building the routing tree rewrote the configuration it was given"]
+      else if built = "panic" then [.propfail "load_total" "panic" "dispatch.NewRoute panics on an accepted configuration"]
+      else []
     let tags : List Msg :=
       [.tag s!"profile:{profile}", .tag s!"class:{m}"] ++
+      (if built = "same" then [.tag "treebuild:checked"] else []) ++
+      (match raw.route with
+       | some r => if r.all (fun n => !(n.matchNames.length = 1 ∧ [4, 6, 7, 8].contains n.nMatchers)) then [] else [.tag "route:match+matchers-with-spare-capacity"]
+       | none => []) ++
       (if canaries ≠ "-" then [.tag "secrets:checked"] else []) ++
       (if tree2 ≠ "-" then [.tag "stable:checked"] else []) ++
       (match raw.route with
        | some r => if r.all (fun n => n.groupBy ≠ some []) then [] else [.tag "groupby:explicit-empty"]
        | none => [])
-    (σ, total ++ accepted ++ leaks ++ stable ++ tags)
+    (σ, total ++ accepted ++ leaks ++ stable ++ pure ++ tags)
   | _ => (σ, [.diff "parse" "?" s!"cfg with {obs.length} tokens"])
 
 def step (σ : St) (op obs : List String) : St × List Msg :=
